@@ -221,6 +221,7 @@ def access_paths(s, q):
         r = s.search(q, limit=lim)
         out["len(limit=%d)" % lim] = len(r)
         out["scored_length(limit=%d)" % lim] = r.scored_length()
+        out["hits(limit=%d)" % lim] = sorted(h["k"] for h in r)
     r = s.search(q, limit=None, scored=False)
     out["unscored"] = sorted(h["k"] for h in r)
     r = s.search(q, limit=None, sortedby="k")
